@@ -586,7 +586,7 @@ func c16Structural(c *core.Ctx) {
 				isFasta = true
 			}
 		}
-		if f.Name() == "findReference" {
+		if f.Name() == currentName(c, "pkg/variants", "findReference") {
 			isFasta = true
 		}
 		if !isFasta {
@@ -596,5 +596,5 @@ func c16Structural(c *core.Ctx) {
 		c.Ob("D/"+f.Name()+"/default-split-function", !split, f.Pos(), "the reader installs a custom split function; line-ending handling is no longer bufio.ScanLines'")
 		c.Ob("D/"+f.Name()+"/scanner-error-consulted", errChecked, f.Pos(), "Scanner.Err() is never consulted: an over-long line or read error would be taken for end of input")
 	}
-	c.Floor("D/scanner-readers", nScan, 5)
+	c.Floor("D/scanner-readers", nScan, 4)
 }
